@@ -92,8 +92,9 @@ def run_impl(case, t=None):
 
     t = np.array(case["t"] if t is None else t, float)
     n = len(t)
-    rv = np.arange(n, dtype=float) * u.km / u.s
-    err = np.ones(n) * u.km / u.s
+    f32 = case.get("perm_seed", 0) % 4 == 1  # a quarter of the cases: single-precision velocities next to the double-precision times
+    rv = np.arange(n, dtype=np.float32 if f32 else float) * u.km / u.s
+    err = np.ones(n, dtype=np.float32 if f32 else float) * u.km / u.s
     tref = None if case["tref_mode"] == "default" else Time(case["tref"], format="mjd", scale="tcb")
     data = RVData(t, rv, err, t_ref=tref, clean=case.get("perm_seed", 0) % 3 != 0)  # a third of the cases without cleaning: same finite observations
     s = JokerSamples()
